@@ -258,6 +258,32 @@ def run(R):
     R.extra['constructor_ids_that_are_printable_text'] = len(G.text_ids)
     per = 30 if quick else 500
     mine = [n for i, n in enumerate(supported) if i % R.nshards == R.shard]
+
+    def nested_failure_storm(count):
+        """packets whose nested payload cannot be parsed (a constructor with a vector field followed by an absurd element count): the parser gives up from INSIDE a
+        nested payload, hundreds of times, on the schemas object that parses all the valid values of this run.  Outcomes are not judged."""
+        vec = [s_ for s_ in lib_auto.list if not s_.is_empty() and any('vector' in t_ or '(' in t_ for t_ in s_.args.values())]
+        outers = [s_ for s_ in lib_auto.list if not s_.is_empty() and list(s_.args.values()).count('bytes') == 1 and s_.name not in lib_auto.untouchables
+                  and all(t_ in ('bytes', 'int', 'long', 'int256', 'int128', '#') for t_ in s_.args.values())]
+        if not vec or not outers:
+            return
+        fill = {'int': 1, 'long': 2, 'int256': '11' * 32, 'int128': '22' * 16, '#': 0}
+        for _ in range(count):
+            inner = rng.choice(vec).little_id() + rng.choice([b'\xff\xff\xff\x7f', b'\xff' * 12, b'\x01', b'\xfe\xff\xff\xff' + bytes(8), rng.randbytes(7)])
+            if rng.random() < 0.3:      # one level further down
+                o2 = rng.choice(outers)
+                st0, inner = mon.call(lib_auto.serialize, o2, {f_: (inner if t_ == 'bytes' else fill[t_]) for f_, t_ in o2.args.items()})
+                if st0 == 'exc':
+                    continue
+            o = rng.choice(outers)
+            st0, data = mon.call(lib_auto.serialize, o, {f_: (inner if t_ == 'bytes' else fill[t_]) for f_, t_ in o.args.items()})
+            if st0 == 'exc':
+                continue
+            st0, res = mon.call(lib_auto.deserialize, data)
+            R.cover('nested_failure_outcomes', st0 if st0 == 'ok' else type(res).__name__)
+            R.count('nested_failures_provoked')
+
+    nested_failure_storm(300 if quick else 2000)
     for name in mine:
         ctor = ctors[name]
         nflag = len({t.split('?')[0] for _, t in ctor.fields if '?' in t})
